@@ -41,6 +41,9 @@ def run_property(pid, program, tier, known=None):
     # is the self-validation of the rules (break / twin variants), see main().
     results, ctx = report.run_rules(pid, rules, program, "thorough")
     new, matched, stale = report.summarise(pid, results, known)
+    if ctx.rule_errors and not new:
+        # fail closed: nothing was found, but not everything could be analysed
+        raise AnalysisError("; ".join(ctx.rule_errors))
     return mod, results, ctx, new, matched, stale
 
 
@@ -87,6 +90,8 @@ def main(argv=None):
             print(f"KNOWN-FINDING: property={pid} {v.construct} — {k['what_fails']}")
         for k in stale:
             print(f"note: known finding no longer fires: {k['construct']}")
+        for e_ in getattr(ctx, "rule_errors", []):
+            print(f"note: a rule could not be carried out on this tree (the violations below stand on their own): {e_}")
         for v in new:
             path = report.write_replay(pid, v)
             print(f"VIOLATION property={pid} replay={path}")
